@@ -34,13 +34,13 @@ func probeMain(args []string) int {
 		fmt.Printf("%3d %s %-22s %s\n", i, ev.Task, ev.Stmt, ev.Res)
 	}
 	b, _ := json.MarshalIndent(struct {
-		Resps, Setup any
+		Resps, Setup, Post any
 		Commits     []string
 		Choices     []int
 		Stuck       []string
 		State       any
 		Err         string
-	}{out.Resps, out.SetupResps, out.Commits, out.Choices, out.Stuck, out.State, out.Err}, "", " ")
+	}{out.Resps, out.SetupResps, out.PostResps, out.Commits, out.Choices, out.Stuck, out.State, out.Err}, "", " ")
 	fmt.Println(string(b))
 	if os.Getenv("PROBE_SQL") != "" && cur != nil {
 		for _, s := range cur.srv.Log() {
@@ -48,4 +48,10 @@ func probeMain(args []string) int {
 		}
 	}
 	return 0
+}
+
+func init() {
+	if os.Getenv("PROBE_DUMP") != "" {
+		debugDump = true
+	}
 }
